@@ -123,17 +123,23 @@ pub fn run(out: &mut impl Write, seed: u64, cases: usize, _replay: &str) {
         let socket_workers = r.pick(&[1usize, 2, 3]);
         let swarm_workers = r.pick(&[1usize, 2, 3]);
         let keep_alive = r.chance(70);
+        // C03: every third history runs behind a (simulated) reverse proxy - few upstream connections carry the
+        // requests of many clients, each named by the last address of the last X-Forwarded-For header of ITS request
+        let proxy = !boundary_case && case % 3 == 1;
+        let keep_alive = keep_alive || proxy;   // a proxy keeps its upstream connections open
+        let vips: Vec<IpAddr> = ["10.0.0.1", "10.0.0.2", "192.0.2.7", "2001:db8::5", "2001:db8::6", "::ffff:10.0.0.9"].iter().map(|s| s.parse().unwrap()).collect();
         let (max_peers, max_scrape) = if boundary_case { (50usize, 100usize) } else { (r.pick(&[1usize, 2, 3, 50]), r.pick(&[2usize, 3, 100])) };
         let args = vec![
             format!("socket_workers={}", socket_workers), format!("swarm_workers={}", swarm_workers),
             format!("keep_alive={}", keep_alive), format!("max_peers={}", max_peers), format!("max_scrape_torrents={}", max_scrape),
+            format!("proxy={}", proxy),
         ];
         let Some(mut server) = Server::start("http", &args) else {
             writeln!(out, "cfg http {} {}\nnet START-FAILED", max_peers, max_scrape).unwrap();
             continue;
         };
         writeln!(out, "cfg http {} {}", max_peers, max_scrape).unwrap();
-        writeln!(out, "net socket_workers={} swarm_workers={} keep_alive={} boundary={}", socket_workers, swarm_workers, keep_alive, boundary_case).unwrap();
+        writeln!(out, "net socket_workers={} swarm_workers={} keep_alive={} boundary={} proxy={}", socket_workers, swarm_workers, keep_alive, boundary_case, proxy).unwrap();
         writeln!(out, "new").unwrap();
         // alnum hashes (can be written raw); first byte spreads them over the swarm workers
         let hashes: Vec<[u8; 20]> = (0..6u8).map(|i| { let mut h = [b'h'; 20]; h[0] = b'a' + i; h[19] = b'0' + i; h }).collect();
@@ -146,7 +152,20 @@ pub fn run(out: &mut impl Write, seed: u64, cases: usize, _replay: &str) {
                 conns[ci].stream = connect(conns[ci].src, server.port);
                 conns[ci].requests_on_stream = 0;
             }
-            let fam = if conns[ci].src.is_ipv4() { 4 } else { 6 };
+            // the peer as the tracker must see it: the TCP source, or the client the proxy names
+            let vip = r.pick(&vips);
+            let peer_ip: IpAddr = if proxy { aquatic_common::CanonicalSocketAddr::new(SocketAddr::new(vip, 1)).get().ip() } else { conns[ci].src };
+            let fam = if peer_ip.is_ipv4() { 4 } else { 6 };
+            let xff: Vec<u8> = if !proxy { Vec::new() } else {
+                match r.below(4) {
+                    0 => format!("X-Forwarded-For: {}\r\n", vip),
+                    1 => format!("X-Forwarded-For: 198.51.100.200, {}\r\n", vip),
+                    2 => format!("X-Forwarded-For: 203.0.113.9\r\nX-Forwarded-For: 2001:db8::99,  {}\r\n", vip),
+                    // (the header name is compared exactly as configured; a differently-cased name counts as absent, which
+                    // the tracker treats as an operator error and panics on - not part of these histories)
+                    _ => format!("X-Forwarded-For:   {} \r\n", vip),
+                }.into_bytes()
+            };
             let is_scrape = boundary_case || r.chance(25);
             let (line, bytes) = if is_scrape {
                 let hs: Vec<[u8; 20]> = if boundary_case {
@@ -172,9 +191,16 @@ pub fn run(out: &mut impl Write, seed: u64, cases: usize, _replay: &str) {
                 });
                 let mut b = Vec::new();
                 rq.write(&mut b, b"").unwrap();
-                let l = format!("ann {} {} {} {} {} {} {} 4000000000 {}", fam, hex(&hash), ip_hex(conns[ci].src), port,
+                let l = format!("ann {} {} {} {} {} {} {} 4000000000 {}", fam, hex(&hash), ip_hex(peer_ip), port,
                     if event == "empty" { "none" } else { event }, left, numwant.map(|n| n as i64).unwrap_or(-1), hex(&pid));
                 (l, b)
+            };
+            // the proxy's header goes in front of the blank line that ends the request
+            let bytes = if xff.is_empty() { bytes } else {
+                let mut b = bytes[..bytes.len() - 2].to_vec();
+                b.extend_from_slice(&xff);
+                b.extend_from_slice(b"\r\n");
+                b
             };
             let reply = match conns[ci].stream.as_mut() {
                 None => Reply::None("connect-failed".into()),
